@@ -685,3 +685,41 @@ GLOBAL_REC = {}
 HOOKS = {k: [] for k in ("binop", "cmp", "attr", "getitem", "getslice", "setitem", "setslice", "comp",
                          "iter_symbolic", "make_symbolic", "method", "len", "minmax1", "sum", "list", "dict",
                          "isinstance", "hasattr")}
+
+
+def _register_scipy():
+    def ppf_ax(ctx, name, f, q, df, t):
+        reg = ctx.__dict__.setdefault("uf2_args", {}).setdefault(name, [])
+        for (q2, df2, t2) in reg:
+            if df2.eq(df) and not q2.eq(q):
+                ctx.fact(z3.And(z3.Implies(q2 <= q, t2 <= t), z3.Implies(q <= q2, t <= t2)), key=(name + "-mono", q.sexpr(), q2.sexpr(), df.sexpr()))
+        if not any(q2.eq(q) and df2.eq(df) for (q2, df2, t2) in reg):
+            reg.append((q, df, t))
+
+    def t_ppf(self, it, args, kw, fr, node):
+        q, df = to_real(it.run.num(args[0])), to_real(it.run.num(args[1]))
+        f = it.ctx.uf("t_ppf", REAL, REAL, REAL)
+        t = f(q, df)
+        ppf_ax(it.ctx, "t_ppf", f, q, df, t)
+        self.note(it, "axiom:scipy.stats.t.ppf (monotone in the level for a fixed number of degrees of freedom)")
+        return t
+
+    def norm_ppf(self, it, args, kw, fr, node):
+        q = to_real(it.run.num(args[0]))
+        loc = to_real(it.run.num(args[1])) if len(args) > 1 else z3.RealVal(0)
+        scale = to_real(it.run.num(args[2])) if len(args) > 2 else z3.RealVal(1)
+        f = it.ctx.uf("norm_ppf01", REAL, REAL)
+        t = f(q)
+        ppf_ax(it.ctx, "norm_ppf01", f, q, z3.RealVal(0), t)
+        self.note(it, "axiom:scipy.stats.norm.ppf(q, loc, scale) == loc + scale * ppf01(q), ppf01 monotone")
+        return loc + scale * t
+    orig = Models.__init__
+
+    def new_init(self):
+        orig(self)
+        self.ext["scipy.stats.t.ppf"] = t_ppf
+        self.ext["scipy.stats.norm.ppf"] = norm_ppf
+    Models.__init__ = new_init
+
+
+_register_scipy()
